@@ -107,7 +107,7 @@ func findMain(args []string) error {
 			j = len(scen)
 		}
 		base := i
-		if err := supervise([]string{"find", "--root", *root}, nil, "", scen[i:j], 1500*time.Millisecond, func(k int, line []byte) { emit(base+k, line) }); err != nil {
+		if err := supervise([]string{"find", "--root", *root}, nil, "", scen[i:j], 5*time.Second, func(k int, line []byte) { emit(base+k, line) }); err != nil {
 			return err
 		}
 		i = j
